@@ -255,6 +255,10 @@ PROPS["C05"] = {
         # glue - borrowing and consuming - reaches exactly the entries captured in the object (shared with C07)
         {"id": "foreign_vtable", "crate": "gen", "quick": ["c07::c07_caller_glue_holds_context_across_consuming_call"],
          "cbmc_args": LEAK, "timeout": 900},
+        # two modules that each expand the same group definition must agree on its layout: the order of the vtable words
+        # is a function of the trait names alone (4 mandatory + 2 optional traits; an order that depended on the expanding
+        # process - hash seed - would match the name order only by chance)
+        {"id": "layout_by_names", "crate": "gen", "quick": ["c08x::c08x_mandatory_and_optional_word_order"], "timeout": 600},
     ],
     "negative": ["c05::c05_negative_twin"],
     "bounds": "two-role model inside one build: values fabricated through their C view by a plugin role with its own function "
@@ -289,7 +293,10 @@ PROPS["C01"] = {
                    "c01::c01_reader_ctxbox_k3", "c01::c01_counter_box_k3", "c01::c01_counter_mut_k3", "c01::c01_counter_ctxbox_k3",
                    "c01::c01_consume_box_k2", "c01::c01_consume_ctxbox_k2", "c01::c01_group_consume", "c01::c01_group_box_k3",
                    "c01::c01_group_cast_k2", "c01::c01_group_mut_k3", "c01::c01_generic_and_lifetime_traits",
-                   "c01::c01_two_borrowed_results_alive", "c01::c01_group_partial_impl", "c01::c01_overridden_defaults_and_marker_scope", "c01::c01_negative_twin"],
+                   "c01::c01_two_borrowed_results_alive", "c01::c01_group_partial_impl", "c01::c01_overridden_defaults_and_marker_scope",
+                   # call equivalence also means: arguments arrive as a direct call would deliver them (address of an empty slice
+                   # included), and an integer-coded result with a droppable payload is moved out exactly once, nothing on Err
+                   "c02::c02_args_slices", "c02::c02_strings_multibyte", "c13e::c13e_roundtrip", "c01::c01_negative_twin"],
          "thorough_adds": ["c01::c01_reader_box_k4", "c01::c01_reader_ref_k4", "c01::c01_reader_arc_k4", "c01::c01_counter_box_k4",
                            "c01::c01_counter_mut_k4", "c01::c01_counter_ctxbox_k4", "c01::c01_consume_box_k3",
                            "c01::c01_consume_ctxbox_k3", "c01::c01_group_box_k4", "c01::c01_group_cast_k3", "c01::c01_group_mut_k4"],
@@ -349,6 +356,7 @@ PROPS["C04"] = {
                    "c04::c04_object_words_and_sizes", "c04::c04_vtbl_only_in_declaration_order",
                    "c04::c04_group_alias_name_order", "c04::c04_object_with_context_words",
                    "c04::c04_vtbl_provided_methods_have_slots", "c04::c04_overaligned_type_argument",
+                   "c08x::c08x_mandatory_and_optional_word_order",
                    "c04::c04_container_order_with_context_and_ret_tmp", "c04::c04_noncontiguous_cast_and_ret_tmp_order",
                    "c04::c04_negative_twin"],
          "timeout": 900},
@@ -372,7 +380,7 @@ PROPS["C06"] = {
         {"id": "lifecycle",
          "quick": ["c06::c06_object_paths", "c06::c06_group_paths", "c06::c06_clone_and_self_return",
                    "c06::c06_borrowing_objects_do_not_drop", "c06::c06_boxed_parent_borrowed_child", "c06::c06_cbox_paths",
-                   "c06::c06_cslicebox", "c06::c06_zero_sized_payload_with_destructor", "c06::c06_negative_twin"],
+                   "c06::c06_cslicebox", "c06::c06_cslicebox_plain_data", "c06::c06_zero_sized_payload_with_destructor", "c06::c06_negative_twin"],
          "cbmc_args": LEAK, "timeout": 1800},
     ],
     "negative": ["c06::c06_negative_twin"],
@@ -422,6 +430,7 @@ PROPS["C08"] = {
         {"id": "casts",
          "quick": ["c08::c08_g3_box", "c08::c08_g3_mut", "c08::c08_ref_container", "c08::c08_impl_types_g3", "c08::c08_aliased_generic_members",
                    "c08::c08_owned_list_of_four_argument_registration",
+                   "c08x::c08x_mandatory_and_optional_word_order", "c08x::c08x_casts_dispatch_to_the_right_trait",
                    "c08::c08_negative_twin"],
          "thorough_adds": ["c08::c08_g4_box", "c08::c08_g4_mut"],
          "timeout": 3000},
